@@ -37,6 +37,11 @@ def init_zygote():
     hw.init_zygote()
 
 
+def batch_meta():
+    from ..threadsim import cover_totals
+    return {"pp_totals": cover_totals()}
+
+
 # --------------------------------------------------------------------------
 
 def gen_world(rng, max_wrappers=5):
